@@ -146,7 +146,7 @@ var ruleA5 = &Rule{
 			// Two loop shapes are understood. Index loop: `for i := START; i < len(S); i++ { exec(S[i]) }` — executed index i.
 			// Range loop: `for n, x := range S[START:] { exec(x) }` — executed index START + n.
 			var execCall *ast.CallExpr
-			var idx linForm      // absolute index of the statement executed in this iteration
+			var idx linForm        // absolute index of the statement executed in this iteration
 			var startExpr ast.Expr // START
 			var loopBody *ast.BlockStmt
 			coverOK, coverMsg := false, ""
@@ -1007,7 +1007,7 @@ func (c *Ctx) mentionsText(fi *FuncInfo, e ast.Expr, want string, depth int) boo
 var ruleC6 = &Rule{
 	ID:    "C6",
 	Floor: 6,
-	Doc: "tier-move clamp: the TTL routine clamps each tier duration to its minimum parameter before use (`if x < min { x = min }` ahead of the interpolation), and every call site passes the day-sized minimum iff the insert-time expression is the `date` column (index tables), the minute-sized minimum otherwise (sample tables)",
+	Doc:   "tier-move clamp: the TTL routine clamps each tier duration to its minimum parameter before use (`if x < min { x = min }` ahead of the interpolation), and every call site passes the day-sized minimum iff the insert-time expression is the `date` column (index tables), the minute-sized minimum otherwise (sample tables)",
 	Run: func(c *Ctx) []Obl {
 		var obls []Obl
 		p, fd := c.FuncDecl(pkgCtrlMaint, "rotateTables")
@@ -1228,7 +1228,6 @@ var ruleC7 = &Rule{
 }
 
 func init() { register(ruleC7) }
-
 
 // ---- small linear arithmetic over local integer variables (A5) ----
 
